@@ -21,6 +21,11 @@ def run(tier, seed, replay=None):
                             args=["-n", n, "-seed", seed * 10 + k, "-runs", 4, "-depth", 3, "-fail", 2 + k % 2]))
     batches.append(dict(name="tlc-enumerated-with-failures", world=seed, gen=(tier, False),
                         args=["-seed", seed + 5, "-runs", 4, "-fail", 2]))
+    # which of several failures is reported, and with which path, may depend on the order of execution:
+    # every sequential schedule of every query is enumerated (choice-sequence scheduler, depth-first, capped)
+    batches.append(dict(name="all-schedules-with-failures", world=seed + 4,
+                        args=["-n", 120 if quick else 1200, "-seed", seed * 10 + 8, "-runs", 1, "-depth", 3, "-fail", 3,
+                              "-allsched", 200 if quick else 3000]))
     v = vlib.Verdict(PROP)
     st = ex.run_batches(PROP, v, batches)
     # the websocket half of the statement (only safe texts forwarded, generic message otherwise, an initially
